@@ -64,7 +64,8 @@ def binary_operator_function(ctx) -> Dict[str, str]:
 
 
 def compiler_op_maps(ctx) -> Dict[str, Dict[str, str]]:
-    """class branch -> {operator: opcode} for each op_map dict in the expression compiler."""
+    """class branch -> {operator: opcode}; a branch with several op_map tables (one per target form)
+    must give every operator the same opcode in all of them (a disagreement is reported as operator '<op>!')."""
     ea = emit.get(ctx)
     _, chain, _ = ea.node_chain("_compile_expression")
     out: Dict[str, Dict[str, str]] = {}
@@ -76,7 +77,14 @@ def compiler_op_maps(ctx) -> Dict[str, Dict[str, str]]:
                     for k, v in zip(n.value.keys, n.value.values):
                         if const_str(k) is not None and opcode_member(v):
                             d[const_str(k)] = opcode_member(v)
-                    out["|".join(classes)] = d
+                    key = "|".join(classes)
+                    if key in out:
+                        prev = out[key]
+                        for op in set(prev) | set(d):
+                            if prev.get(op) != d.get(op):
+                                prev[op] = f"{prev.get(op)}/{d.get(op)}"  # disagreement between sibling tables
+                    else:
+                        out[key] = d
     return out
 
 
